@@ -48,10 +48,42 @@ type Case struct {
 	Limiter int     `json:"limiter"` // 0 none, 1 recording, 2 failing
 	Status  int     `json:"status"`
 	Body    int     `json:"body"` // index into bodyShapes
+	// Prev, if set (Via 0 only), is a call made first on the SAME Datasource and
+	// http.Client (its own status and body); the judged call must behave exactly
+	// as on a fresh Datasource: nothing of an earlier call may stick.
+	Prev *Case `json:"prev,omitempty"`
 }
 
 func (c *Case) argString() string {
-	return fmt.Sprintf("%s via%d id=%d ids=%v v=%d b=%d q=%q opts=%v base=%d lim=%d", c.Call, c.Via, c.ID, c.IDs, c.Version, c.Bounds, c.Query, c.Opts, c.Base, c.Limiter)
+	s := fmt.Sprintf("%s via%d id=%d ids=%v v=%d b=%d q=%q opts=%v base=%d lim=%d", c.Call, c.Via, c.ID, c.IDs, c.Version, c.Bounds, c.Query, c.Opts, c.Base, c.Limiter)
+	if c.Prev != nil {
+		s += " after[" + c.Prev.String() + "]"
+	}
+	return s
+}
+
+// switchRT lets two calls share one http.Client while each talks to its own exchange.
+type switchRT struct{ cur http.RoundTripper }
+
+func (s *switchRT) RoundTrip(req *http.Request) (*http.Response, error) { return s.cur.RoundTrip(req) }
+
+func buildArgs(e *endpoint, c *Case) callArgs {
+	a := callArgs{ctx: context.Background(), c: c}
+	for _, o := range c.Opts {
+		switch o.Kind {
+		case "at":
+			a.fo = append(a.fo, osmapi.At(atAlphabet[o.N].T))
+		case "limit":
+			a.no = append(a.no, osmapi.Limit(o.N))
+		case "closed":
+			a.no = append(a.no, osmapi.MaxDaysClosed(o.N))
+		}
+	}
+	if e.Args == argBounds {
+		b := boundsAlphabet[c.Bounds]
+		a.bounds = &osm.Bounds{MinLon: b.MinLon, MinLat: b.MinLat, MaxLon: b.MaxLon, MaxLat: b.MaxLat}
+	}
+	return a
 }
 
 func (c *Case) String() string {
@@ -211,27 +243,24 @@ func checkCase(r *kit.Run, c *Case) {
 		lim = &limiter{x: x, err: errLimiter}
 	}
 
-	a := callArgs{ctx: context.Background(), c: c}
-	for _, o := range c.Opts {
-		switch o.Kind {
-		case "at":
-			a.fo = append(a.fo, osmapi.At(atAlphabet[o.N].T))
-		case "limit":
-			a.no = append(a.no, osmapi.Limit(o.N))
-		case "closed":
-			a.no = append(a.no, osmapi.MaxDaysClosed(o.N))
-		}
-	}
-	if e.Args == argBounds {
-		b := boundsAlphabet[c.Bounds]
-		a.bounds = &osm.Bounds{MinLon: b.MinLon, MinLat: b.MinLat, MaxLon: b.MaxLon, MaxLat: b.MaxLat}
-	}
+	a := buildArgs(e, c)
 
 	var got outcome
 	var ds *osmapi.Datasource
 	switch c.Via {
 	case 0:
-		ds = &osmapi.Datasource{BaseURL: bases[c.Base], Client: client, Limiter: lim}
+		if c.Prev != nil {
+			pe := endpointByCall(c.Prev.Call)
+			px := &exchange{status: c.Prev.Status, body: bodyXML(pe, bodyElems(pe, c.Prev.Body))}
+			rt := &switchRT{cur: px}
+			ds = &osmapi.Datasource{BaseURL: bases[c.Base], Client: &http.Client{Transport: rt}}
+			pa := buildArgs(pe, c.Prev)
+			guarded(func() outcome { return impls[c.Prev.Call].method(ds, pa) })
+			rt.cur = x
+			ds.Limiter = lim
+		} else {
+			ds = &osmapi.Datasource{BaseURL: bases[c.Base], Client: client, Limiter: lim}
+		}
 		got = guarded(func() outcome { return impls[c.Call].method(ds, a) })
 	case 1:
 		globalMu.Lock()
@@ -505,6 +534,7 @@ func main() {
 			"x option sets (none, At utc / At zoned; Limit 1,10000,0,10001, MaxDaysClosed -1,0,7, both orders, invalid after valid) " +
 			"x base URL (unset, custom with port and path prefix, https) x limiter (none, recording, failing) " +
 			"x status (17 in quick; all of 200-299 and 400-599 in thorough) x body (0, 1, 2 elements of the returned kind, 1 + foreign kinds, foreign only; thorough: 3 unsorted + foreign). " +
+			"Sequence pass: every ordered pair of calls (with and without options, first call answered 200 / 404) on ONE Datasource and http.Client, the second call judged like a first call. " +
 			"A case is non-trivial unless it is the plain happy path (status 200, one element, no options, no limiter, default base, small id); " +
 			"fingerprints drop status and body when no request may be sent (failing limiter, invalid options).")
 		r.Assume("the endpoint table in props/c20/table.go transcribes the API v0.6 documentation correctly (written from memory of the wiki page, no network)")
@@ -582,6 +612,51 @@ func main() {
 			}
 		}
 		r.Set("cases_package_level_and_nil_client", serial)
+
+		// sequence pass: every ordered pair of calls on one Datasource and one
+		// http.Client; the second call is judged exactly like a first call
+		pairs := 0
+		rep := func(e *endpoint, withOpts bool) Case {
+			args := argShapes(e, true)
+			c := args[len(args)-1]
+			c.Call = e.Call
+			if withOpts {
+				switch e.Opts {
+				case optFeature:
+					c.Opts = []Opt{{"at", 1}}
+				case optNotes:
+					c.Opts = []Opt{{"limit", 10}, {"closed", 7}}
+				}
+			}
+			return c
+		}
+		for i := range endpoints {
+			for j := range endpoints {
+				for _, po := range []bool{false, true} {
+					if po && endpoints[i].Opts != optFeature && endpoints[i].Opts != optNotes {
+						continue
+					}
+					for _, pst := range []int{200, 404} {
+						for _, bo := range []bool{false, true} {
+							if bo && endpoints[j].Opts != optFeature && endpoints[j].Opts != optNotes {
+								continue
+							}
+							for _, st := range []int{200, 410} {
+								for lim := 0; lim <= 1; lim++ {
+									prev := rep(&endpoints[i], po)
+									prev.Status, prev.Body = pst, 2
+									c := rep(&endpoints[j], bo)
+									c.Status, c.Body, c.Limiter, c.Base, c.Prev = st, 1, lim, 1, &prev
+									checkCase(r, &c)
+									pairs++
+								}
+							}
+						}
+					}
+				}
+			}
+		}
+		r.Set("cases_second_call_on_same_datasource", pairs)
 
 		// parallel pass: methods on private Datasources, the full product
 		var shapes []shape
